@@ -44,7 +44,11 @@ func sharedMutex(path string) *lockedfile.Mutex {
 	return m.(*lockedfile.Mutex)
 }
 
-var readEntries = []string{"open", "openfile-rdonly", "read"}
+var readEntries = []string{"open", "openfile-rdonly", "read", "openfile-rdonly-trunc"}
+
+// refusing entries are calls that take the lock and then fail at a later step of the same call (the truncation of a
+// file opened read-only is refused by the kernel): they return an error, and then nothing may be held.
+var refusing = map[string]bool{"openfile-rdonly-trunc": true}
 
 func isWrite(e string) bool {
 	for _, w := range writeEntries {
@@ -86,6 +90,8 @@ func acquireFd(path, e string, inside func()) (release func() error, fd int, err
 		f, err = lockedfile.Open(path)
 	case "openfile-rdonly":
 		f, err = lockedfile.OpenFile(path, os.O_RDONLY, 0)
+	case "openfile-rdonly-trunc":
+		f, err = lockedfile.OpenFile(path, os.O_RDONLY|os.O_TRUNC, 0)
 	case "mutex":
 		unlock, err := lockedfile.MutexAt(path).Lock()
 		if err != nil {
@@ -252,7 +258,7 @@ func checkModel(c modelCase) *vt.Fail {
 					insideFail = vt.Failf("not-locked-inside-call", "inside the %s callback on p%d the file is not write-locked (exclusive probe %s, shared probe %s). history: %s", o.Entry, o.Path, okStr(ex), okStr(sh), strings.Join(trail, " "))
 				}
 			})
-			if err != nil && o.Path == 3 {
+			if err != nil && (o.Path == 3 || refusing[o.Entry]) {
 				// refusing to lock a directory is fine: then nothing is held
 				if f := expect(step + "(refused)"); f != nil {
 					return f
@@ -469,6 +475,9 @@ func runProgram(sh *rig.Shared, paths []string, prog []step, who string) *vt.Fai
 			continue
 		}
 		rel, err := acquire(paths[s.Path], s.Entry, critical)
+		if err != nil && refusing[s.Entry] {
+			continue // took the lock, failed, must have let go: the others' witnesses will tell if it did not
+		}
 		if err != nil {
 			return vt.Failf("HARNESS-acquire-failed", "%s: %v", what, err)
 		}
@@ -681,6 +690,9 @@ func TestHandover(t *testing.T) {
 	var n int64
 	for _, h := range append(append([]string{}, writeEntries...), readEntries...) {
 		for _, w := range append(append([]string{}, writeEntries...), readEntries...) {
+			if refusing[h] || refusing[w] {
+				continue
+			}
 			if callScoped(h) || (!isWrite(h) && !isWrite(w)) {
 				continue
 			}
